@@ -137,3 +137,57 @@ Proof.
   pose proof (Z.shiftr_nonneg (Z.of_nat (length data)) 5). lia.
 Qed.
 
+(* ---- strings: == is equality of the byte contents, so equal strings hash alike (the byte loop is a function of
+   the bytes); float32 keys: the only distinct patterns that are == are the two zeros, which both hash to 0 *)
+Lemma bytes_eqb_eq : forall a b, bytes_eqb a b = true -> a = b.
+Proof.
+  induction a as [|x a IH]; intros [|y b] H; cbn in H; try discriminate; [reflexivity|].
+  apply andb_true_iff in H. destruct H as [E H]. apply Z.eqb_eq in E. subst. f_equal. apply IH. assumption.
+Qed.
+Lemma bytes_eqb_refl : forall a, bytes_eqb a a = true.
+Proof. induction a; cbn; [reflexivity|]. rewrite Z.eqb_refl. assumption. Qed.
+
+Theorem hash_string_coherent : forall a b, str_eqb a b = true -> hash_string a = hash_string b.
+Proof.
+  intros a b H. unfold str_eqb in H. apply andb_true_iff in H. destruct H as [_ H].
+  rewrite (bytes_eqb_eq _ _ H). reflexivity.
+Qed.
+Lemma str_eqb_equiv : (forall a, str_eqb a a = true) /\ (forall a b, str_eqb a b = str_eqb b a) /\
+  (forall a b c, str_eqb a b = true -> str_eqb b c = true -> str_eqb a c = true).
+Proof.
+  assert (forall a b, str_eqb a b = true -> a = b) as E.
+  { intros a b H. unfold str_eqb in H. apply andb_true_iff in H. apply bytes_eqb_eq. tauto. }
+  assert (forall a, str_eqb a a = true) as R by (intros; unfold str_eqb; rewrite Nat.eqb_refl, bytes_eqb_refl; reflexivity).
+  split; [exact R|]. split.
+  - intros a b. destruct (str_eqb a b) eqn:A.
+    + rewrite (E _ _ A). symmetry. apply R.
+    + destruct (str_eqb b a) eqn:B; [|reflexivity]. rewrite (E _ _ B), R in A. discriminate.
+  - intros a b c A B. rewrite (E _ _ A). assumption.
+Qed.
+
+Lemma hash_float32_zero : forall a, g_iszero a = true -> hash_float32 a = 0.
+Proof. intros a H. unfold hash_float32. rewrite H. reflexivity. Qed.
+Theorem hash_float32_coherent : forall a b, g_eqb a b = true -> hash_float32 a = hash_float32 b.
+Proof.
+  intros a b H. unfold g_eqb in H. apply andb_true_iff in H. destruct H as [_ H].
+  apply orb_true_iff in H. destruct H as [H|H].
+  - apply Z.eqb_eq in H. subst. reflexivity.
+  - apply andb_true_iff in H. destruct H as [Ha Hb]. rewrite !hash_float32_zero by assumption. reflexivity.
+Qed.
+Lemma g_eqb_sym : forall a b, g_eqb a b = g_eqb b a.
+Proof.
+  intros. unfold g_eqb. rewrite (Z.eqb_sym a b), (andb_comm (g_iszero a)).
+  destruct (g_isnan a), (g_isnan b); reflexivity.
+Qed.
+Lemma g_eqb_trans : forall a b c, g_eqb a b = true -> g_eqb b c = true -> g_eqb a c = true.
+Proof.
+  unfold g_eqb. intros a b c H1 H2.
+  apply andb_true_iff in H1. destruct H1 as [H1 E1]. apply andb_true_iff in H1. destruct H1 as [Na Nb].
+  apply andb_true_iff in H2. destruct H2 as [H2 E2]. apply andb_true_iff in H2. destruct H2 as [_ Nc].
+  rewrite Na, Nc. cbn [andb].
+  apply orb_true_iff in E1. apply orb_true_iff in E2. apply orb_true_iff.
+  destruct E1 as [E1|E1]; [apply Z.eqb_eq in E1; subst; destruct E2; auto|].
+  destruct E2 as [E2|E2]; [apply Z.eqb_eq in E2; subst; auto|].
+  apply andb_true_iff in E1. apply andb_true_iff in E2. right. apply andb_true_iff. tauto.
+Qed.
+
